@@ -217,7 +217,32 @@ func asciiJSON(s string) string {
 
 func rawPhase(w *world, c Case, root jrpc2.Assigner, start time.Time) *engine.Verdict {
 	cli, srvEnd := channel.Direct()
-	srv := jrpc2.NewServer(recorder{w, root}, &jrpc2.ServerOptions{DisableBuiltin: c.DisableBuiltin, StartTime: start}).Start(srvEnd)
+	srv := jrpc2.NewServer(recorder{w, root}, &jrpc2.ServerOptions{DisableBuiltin: c.DisableBuiltin, StartTime: start})
+	// NewServer: "It is not safe to modify mux after the server has been started
+	// unless mux itself is safe for concurrent use" - so before Start it is: a
+	// method added between NewServer and Start is served and listed like any other.
+	lateName, lateMap := "", handler.Map(nil)
+	switch m := root.(type) {
+	case handler.Map:
+		lateName, lateMap = "zz_late", m
+	case handler.ServiceMap:
+		for _, k := range c.Tree.Keys {
+			if sub, ok := m[k].(handler.Map); ok && !strings.Contains(k, ".") {
+				lateName, lateMap = k+".zz_late", sub
+				break
+			}
+		}
+	}
+	if !c.DisableBuiltin && strings.HasPrefix(lateName, "rpc.") {
+		lateName, lateMap = "", nil // reserved: it would never reach the assigner
+	}
+	if lateMap != nil {
+		lateMap["zz_late"] = func(ctx context.Context, req *jrpc2.Request) (any, error) {
+			return map[string]string{"tag": "late", "method": req.Method()}, nil
+		}
+		defer delete(lateMap, "zz_late")
+	}
+	srv.Start(srvEnd)
 	old := w.srv
 	w.srv = srv
 	defer func() {
@@ -225,6 +250,38 @@ func rawPhase(w *world, c Case, root jrpc2.Assigner, start time.Time) *engine.Ve
 		srv.Wait()
 		w.srv = old
 	}()
+	if lateName != "" {
+		send := func(req string) ([]byte, error) {
+			if err := cli.Send([]byte(req)); err != nil {
+				return nil, err
+			}
+			return cli.Recv()
+		}
+		rsp, err := send(fmt.Sprintf(`{"jsonrpc":"2.0","id":"late","method":%q}`, lateName))
+		var got struct {
+			Result struct{ Tag string }
+		}
+		if err != nil || json.Unmarshal(rsp, &got) != nil || got.Result.Tag != "late" {
+			v := engine.Failf("C17/wrong-handler", "method %q was added to the assigner between NewServer and Start; calling it gives %s, %v", lateName, rsp, err)
+			return &v
+		}
+		if !c.DisableBuiltin {
+			rsp, err := send(`{"jsonrpc":"2.0","id":"info","method":"rpc.serverInfo"}`)
+			var info struct {
+				Result struct{ Methods []string }
+			}
+			found := false
+			if err == nil && json.Unmarshal(rsp, &info) == nil {
+				for _, m := range info.Result.Methods {
+					found = found || m == lateName
+				}
+			}
+			if !found {
+				v := engine.Failf("C17/serverinfo-methods", "method %q was added to the assigner between NewServer and Start; rpc.serverInfo lists %q (%v)", lateName, info.Result.Methods, err)
+				return &v
+			}
+		}
+	}
 	for i, name := range c.Names {
 		if name == "" || !utf8.ValidString(name) {
 			continue
